@@ -363,6 +363,60 @@ def r8(ctx, facts):
             pred = facts.body(sd[3][1][1])
             n += 1
             vals = bool_returns(facts, pred, lambda call: 0 if (call.name or call.decl or "").endswith("::ptr_eq") else None)
+            # ... and the coordinator itself leaves the rest of the plan whatever shard the plan proposes, when it reported no shard of
+            # its own (an unsharded node): otherwise the page's plan names the same node twice
+            from ..util import field_slice as _fs, _rv_places as _rvp
+
+            def unsharded_coordinator(call, _pred=pred):
+                nm = (call.name or call.decl or "")
+                last = nm.split("::")[-1]
+                if nm.endswith("::ptr_eq"):
+                    return 1
+                body = None
+                for cand in closure_family(facts, _pred):
+                    if any(x is call for _, x in cand.calls()):
+                        body = cand
+                if body is None:
+                    return None
+                def from_shard(op):
+                    return op[0] in ("c", "m") and any((x.name or "").endswith("Coordinator::shard") for x in _fs(body, op)[1])
+                def from_stable(op):
+                    # the previous coordinator, read here or captured from the enclosing function
+                    if op[0] not in ("c", "m"):
+                        return False
+                    from .c11 import xslice
+                    sl = xslice(facts, body, op)
+                    for ent in sl["seen"]:
+                        if len(ent) != 3:
+                            continue
+                        bd = facts.body(ent[0])
+                        for d_ in (bd.defs.get(ent[1], []) if bd is not None else []):
+                            rv_ = d_[3] if d_[0] == "stmt" else None
+                            if rv_ and any(isinstance(e, list) and e[0] == "f" and e[2] == "stable_coordinator" for pl_ in _rvp(rv_) for e in pl_[1]):
+                                return True
+                        for cc in [x for _, x in (bd.calls() if bd is not None else []) if x.dest[0] == ent[1]]:
+                            if any(a_[0] in ("c", "m") and any(isinstance(e, list) and e[0] == "f" and e[2] == "stable_coordinator" for e in a_[1][1]) for a_ in cc.args):
+                                return True
+                    return False
+                if last in ("is_none_or", "is_none") and call.args and from_shard(call.args[0]):
+                    return 1
+                if last in ("is_some_and", "is_some") and call.args and from_shard(call.args[0]):
+                    return 0
+                if last in ("is_none_or", "is_some_and", "map_or") and call.args and from_stable(call.args[0]):
+                    return "some"       # there IS a previous page's coordinator
+                if last in ("is_some_and", "is_some") and call.args and from_shard(call.args[0]):
+                    return 0
+                if last in ("eq", "ne") and len(call.args) == 2 and (from_shard(call.args[0]) or from_shard(call.args[1])):
+                    # compared with `Some(shard)`: None is different from every Some
+                    return 0 if last == "eq" else 1
+                return None
+            def no_coordinator(dj_, stt):
+                # executions in which there is no previous coordinator at all are outside the hypothesis
+                return any(k[0] == "disc" and "stable_coordinator" in dj_.canon.fmt(k[1]) and in_set(v, {0}) for k, v in stt.items())
+            vals2 = bool_returns(facts, pred, unsharded_coordinator, drop_state=no_coordinator)
+            r.instance("unsharded-coordinator-leaves-the-plan", vals2 == {0},
+                       "for a target on the node that served the previous page, when that coordinator has no shard (an unsharded node: every shard the plan proposes means the same node), the filter can "
+                       "answer %s: the node stays in the plan a second time, so the original and a speculative or retried execution of the page can run on the same node" % ("true" if vals2 == {1} else "true or false (undecided)"), c.span)
             r.instance("other-nodes-stay-in-the-plan", vals == {1},
                        "for a target on a node that is NOT the previous page's coordinator (Arc::ptr_eq false) the filter over the load-balancing plan can answer %s: the plan of pages 2.. "
                        "loses healthy nodes, so a page whose coordinator fails is retried on the same node and the stream ends with an error" % ("false" if vals == {0} else "true or false (undecided)"), c.span)
